@@ -79,7 +79,7 @@ def check(chk):
     cfg = f.cfg()
     acq = [n for n in cfg.nodes_where(lambda n: n.kind == "stmt" and "self._is_counting.acquire()" in n.text(200))]
     rel = [n.id for n, c in cfg.calls_named("release") if src(c.func.value) == "self._is_counting"]
-    chk.require(acq, "C05: count lock acquire vanished from BallCountHandler._run")
+    chk.need(acq, "PAIR-6", "the counting loop takes the count lock", f)
     for a in acq:
         w = cfg.path_avoiding(a.id, _loop_heads(cfg)[:1] + [cfg.exit.id], rel, ignore_exc=True)
         chk.ob("PAIR-6", "BallCountHandler._run releases the count lock on every path of an iteration", w is None and bool(rel), f.where(a.ast),
@@ -147,7 +147,7 @@ def check(chk):
 
     # ------------------------------------------------------------- DOM-11
     ej = [(n, c) for n, c in cfg.calls_named("_eject_ball")]
-    chk.require(ej, "C05: _eject_ball call vanished from _ejecting")
+    chk.need(ej, "DOM-11", "_ejecting fires the ball through _eject_ball", f)
     en = ej[0][0]
     fails = [(n, c) for n, c in cfg.calls_named("_failed_eject")]
     retry = [n.id for n, c in fails if len(c.args) >= 3 and src(c.args[2]) == "True"]
